@@ -53,6 +53,19 @@ pub fn build_array<'a>(
     buf: &mut Vec<u8>,
 ) -> Result<(), Error> {
     let start = buf.len();
+    let res = build_array_into(items, buf);
+    if res.is_err() {
+        // an item was rejected: leave the caller's buffer as it was
+        buf.truncate(start);
+    }
+    res
+}
+
+fn build_array_into<'a>(
+    items: impl IntoIterator<Item = &'a [u8]>,
+    buf: &mut Vec<u8>,
+) -> Result<(), Error> {
+    let start = buf.len();
     // reserve space for header
     buf.resize(start + 4, 0);
     let mut len: u32 = 0;
@@ -87,6 +100,19 @@ pub fn build_array<'a>(
 /// Build `JSONB` object from items.
 /// Assuming that the input values is valid JSONB data.
 pub fn build_object<'a, K: AsRef<str>>(
+    items: impl IntoIterator<Item = (K, &'a [u8])>,
+    buf: &mut Vec<u8>,
+) -> Result<(), Error> {
+    let start = buf.len();
+    let res = build_object_into(items, buf);
+    if res.is_err() {
+        // an item was rejected: leave the caller's buffer as it was
+        buf.truncate(start);
+    }
+    res
+}
+
+fn build_object_into<'a, K: AsRef<str>>(
     items: impl IntoIterator<Item = (K, &'a [u8])>,
     buf: &mut Vec<u8>,
 ) -> Result<(), Error> {
